@@ -131,7 +131,7 @@ CLAIMS = {
         "literal, update, item assignment, pop) is closed under cls(**params); sklearn-style transformers store every constructor "
         "parameter under its name; every attribute assigned outside __init__ and read on a post-fit path is serialised; every marker "
         "literal a deserialiser reads is written by a serialiser; the netCDF attribute codec has no unguarded constant subscript on a "
-        "possibly empty string and no unhandled literal_eval (positive fixture fires on every run). Deserialised container attributes are distinct objects; the netCDF attribute codec is applied to node-level and variable-level attributes in both directions, written back under the key read. Arrays computed from a coordinate are named; recorded MultiIndex levels are the index's own; deserialisation entry points run no finalising hook. List transformers are rebuilt in list order (position-keyed mapping walked in insertion or numeric order). Serialised attributes hold plain values (no raw Dataset.dims / sizes mapping proxies). User arrays kept as serialised state are renamed at intake.",
+        "possibly empty string and no unhandled literal_eval (positive fixture fires on every run). Deserialised container attributes are distinct objects; the netCDF attribute codec is applied to node-level and variable-level attributes in both directions, written back under the key read. Arrays computed from a coordinate are named; recorded MultiIndex levels are the index's own; deserialisation entry points run no finalising hook. List transformers are rebuilt in list order (position-keyed mapping walked in insertion or numeric order). Serialised attributes hold plain values (no raw Dataset.dims / sizes mapping proxies). User arrays kept as serialised state are renamed at intake. The netCDF attribute codec is injective: the writer escapes exactly the strings the reader's predicate would decode, on both attribute levels.",
         "note": "Necessary structural clauses only. Not decided: value identity of results after a round trip; the real netCDF/zarr "
         "engines. Known finding: GWPCA constructor closure (see known_findings.json).",
         "technique": "key-set abstract interpretation of constructor chains, writer/reader literal agreement, guard (try/except, emptiness) analysis",
